@@ -55,6 +55,11 @@ P = {
   text="Lean theorems (Props/C14.lean): a state machine of the temp-file + rename protocol over an abstract POSIX directory with any number of writers, readers, crashes; invariant proved for every event list (every interleaving, every crash prefix): a key name only ever points to the complete bytes of a writer that renamed, reads return a miss or a complete entry, read_not_older (atomic-register order via a logical clock), crash leaves absent-or-complete, temp names never equal a hex key name (concrete hex encoding). Fact obligations pin WriteFile's call order, Set's temp dir = root, Get's single ReadFile. Correspondence: hook-stepped goroutine/child-process writers (all interleavings of 2 writers with reads at every position), SIGKILL at every hook point and mid-write, free-running stress as supporting evidence.",
   note="Partial: rename atomicity, unlink-while-open and page-cache persistence across SIGKILL are the kernel's; free-running schedules cannot be enumerated (the theorem covers them in the model, hooks cover step boundaries in the implementation); power loss is outside the property. Uses the verif-tagged VerifHook in internal/file.",
   tech="Lean 4 proof (invariant by induction over arbitrary event lists) + regenerated call skeletons + hook-stepped correspondence with crash injection"),
+ "C19": dict(
+  text="Lean theorems (Props/C19.lean): an abstract content-addressed store with push / direct-manifest / direct-blob steps; by induction over histories of any length: list_exact (a non-refused listing yields exactly the signature manifests stored for exactly that subject, in order), isolation between subjects and from foreign referrers, independence of the predecessor index mode (exact vs digest-only), fetch_roundtrip (pushed bytes label and media type), annotations_superset, hostile_refused_before_use (0/2 layers, oversized declared sizes refused without reading the blob). Position-based fact obligations pin that size guards precede reads and which field the artifact type comes from. Correspondence: real on-disk OCI layouts (oras oci.Store + registry.NewRepository): push sequences over up to 3 subjects with foreign referrers and hostile manifests, listing and fetching everything after every step, digest-only predecessor wrapper, re-open from disk.",
+  note="oras-go's content store, predecessor index and PackManifest are trusted; sha256 collision freedom via the wf hypothesis (pairwise distinct labels, checked per case). Remote registry branches and I/O failures are out of scope. Three oras-go observations are recorded in corpus/C19/README.md.",
+  tech="Lean 4 proof (refinement to subject -> list by induction over histories) + regenerated guard-order facts + correspondence on real OCI layouts"),
+
  "C20": dict(
   text="Lean theorems (Props/C20.lean): semver comparison equals the declarative precedence (strict order, trichotomy up to build metadata); parsePluginFromDir's walk equals the declarative candidate rule; replace_iff (replaced iff strictly higher or overwrite), refused_is_noop, installed_exactly_toplevel, dir_equals_file_source, then_listable_fetchable_uninstallable, invariant over arbitrary operation sequences by induction. Facts pin the semver regex, both sub-directory skip tests and that every refusal check precedes the removal. Correspondence: real CLIManager on real directories with shell-script plugins: install/uninstall sequences over a version pool x overwrite x source shapes; semver model against internal/semver.",
   note="I/O error paths of the walk/copy are not modelled; os.ReadDir order is modelled as code-point order; two behaviours modelled as coded and not forbidden by the property are listed in corpus/C20/README.md.",
